@@ -20,6 +20,11 @@ VARIABLES canon, pend, ps, held, bad, reorgs,
           recs
 vars == <<canon, pend, ps, held, bad, reorgs, conn, start, cur, recs>>
 
+\* The client's branch below its first block is not modelled (Junction takes it to be the chain): the model is for a first
+\* request whose start block cannot be reorganised away.  (With a start cursor the protocol ignores the request's start block
+\* number, so after a reorganisation below it a resumed stream legitimately restarts below it: outside C04's stated range.)
+ASSUME StartC = 1
+
 \* feed messages to the client, remembering the first property broken
 RECURSIVE Go(_, _, _, _)
 Go(h, ms, b, c) ==
